@@ -294,3 +294,8 @@ def big_shape_s(draw, kind):
         return (draw(st.integers(20, 40)), draw(st.integers(20, 40)))
     short = draw(st.integers(2, 4))
     return (long, short) if draw(st.booleans()) else (short, long)
+
+
+# view areas with both sides of 32 cells and more (array paths, printing thresholds and integer widths change around there);
+# used with the observation functions that do not trace rays (those have their own large-view checks)
+HUGE_AREAS = [[[-31, 0], [-15, 16]], [[-32, 0], [-16, 16]], [[-39, 0], [-20, 20]], [[-32, 0], [-31, 2]], [[-63, 0], [-16, 16]]]
